@@ -58,6 +58,8 @@ type C20Step struct {
 	// ErrKind (with LogicErr): what the error is - "" a plain one, or one of the errors storages and contexts hand out when a
 	// request is abandoned or a record is missing. A failure is a failure whatever it says.
 	ErrKind string `json:"error_kind,omitempty"`
+	// NoName: the step is added with an empty value name (the name only serves the log line)
+	NoName bool `json:"no_value_name,omitempty"`
 }
 
 var c20ErrKinds = map[string]error{
@@ -109,6 +111,9 @@ type c20Trace struct {
 	noEnter bool
 	chain   *checker.Checker
 	inner   []c20Inner
+	// evals counts evaluations: every second one goes through a copy of the Checker value (a chain handed on by value - a
+	// helper's return value, a struct field - is the same chain)
+	evals int
 }
 
 type c20Inner struct {
@@ -124,7 +129,7 @@ func (tr *c20Trace) reenter() {
 	tr.depth++
 	saved := tr.ev
 	tr.ev = nil
-	failed := c20Eval(tr.chain)
+	failed := c20Eval(tr.chain, tr)
 	in := c20Inner{failed: failed, trace: tr.String()}
 	tr.ev = saved
 	tr.depth--
@@ -155,7 +160,12 @@ var errC20Callback = errors.New("failure callback aborted")
 
 // c20Eval runs CheckFailed; a panic raised by a failure callback of the chain itself is reported as failed = true (the chain did
 // fail), any other panic is handed on.
-func c20Eval(c *checker.Checker) (failed bool) {
+func c20Eval(c *checker.Checker, tr *c20Trace) (failed bool) {
+	tr.evals++
+	if tr.evals%2 == 0 {
+		cp := *c
+		c = &cp
+	}
 	defer func() {
 		if r := recover(); r != nil {
 			if r == any(errC20Callback) {
@@ -208,17 +218,21 @@ func c20BuildOn(steps []C20Step, cur *[]C20Step, tr *c20Trace) *checker.Checker 
 			}
 			return nil
 		}
+		name := "n"
+		if s.NoName {
+			name = ""
+		}
 		switch s.Kind {
 		case kNotEmpty:
-			c.WithValueNotEmptyCheck("n", val, errF)
+			c.WithValueNotEmptyCheck(name, val, errF)
 		case kValuesNotEmpty:
 			c.WithValuesNotEmptyCheck(func() []string { tr.add(i, 'v'); return (*cur)[i].Values }, errF)
 		case kLength:
-			c.WithValueLengthCheck("n", val, s.Min, s.Max, errF)
+			c.WithValueLengthCheck(name, val, s.Min, s.Max, errF)
 		case kEquals:
-			c.WithValueEqualsCheck("n", val, func() string { tr.add(i, 'v'); return (*cur)[i].Equal }, errF)
+			c.WithValueEqualsCheck(name, val, func() string { tr.add(i, 'v'); return (*cur)[i].Equal }, errF)
 		case kCondNotEmpty:
-			c.WithConditionalValueNotEmpty(cond, "n", val, errF)
+			c.WithConditionalValueNotEmpty(cond, name, val, errF)
 		case kCondLogic:
 			c.WithConditionalLogicStep(cond, logic, errF)
 		case kLogic:
@@ -266,7 +280,7 @@ func c20Check(steps []C20Step) *ev.Violation {
 		tr.ev = tr.ev[:0]
 		tr.inner = nil
 		tr.noEnter = round < 2
-		got := c20Eval(c)
+		got := c20Eval(c, tr)
 		if got != (first >= 0) {
 			return ev.V("C20/verdict", "round %d: CheckFailed=%v, reference says first failing step=%d; trace %s", round, got, first, tr)
 		}
@@ -459,13 +473,14 @@ func TestC20Enum(t *testing.T) {
 	})
 }
 
-const c20Rule = "chains over the checker API: (a) every sequence of the 22 step variants (8 kinds x outcomes pass/fail/condition-false, plus an inequality by one trailing slash, a failing step whose callback panics, a step that evaluates the whole chain again from inside itself, a logic step failing with a typed-nil error value, and one failing with a wrapped context.Canceled) up to the stated length, enumerated exhaustively, each evaluated twice (three times when a step re-enters: inner and outer evaluations must each look like an evaluation of their own); (b) rapid-generated chains up to length 40 with random strings (incl. pairs that differ only by a trailing slash or blank, by letter case, by a prefix), bounds (0 = no bound, min>max allowed), value lists, failure callbacks that panic and logic errors of the kinds storages and contexts hand out (cancellation, deadline, EOF, closed, not-exist, empty message). Non-trivial: length >= 2 with a failing step that is not the last. Enumerated chains are distinct by construction; generated chains are distinct by (kind, reference outcome) vector."
+const c20Rule = "chains over the checker API: (a) every sequence of the 22 step variants (8 kinds x outcomes pass/fail/condition-false, plus an inequality by one trailing slash, a failing step whose callback panics, a step that evaluates the whole chain again from inside itself, a logic step failing with a typed-nil error value, and one failing with a wrapped context.Canceled) up to the stated length, enumerated exhaustively, each evaluated twice - the second time through a copy of the Checker value - (three times when a step re-enters: inner and outer evaluations must each look like an evaluation of their own); (b) rapid-generated chains up to length 40 with random strings (incl. pairs that differ only by a trailing slash or blank, by letter case, by a prefix), bounds (0 = no bound, min>max allowed), value lists, failure callbacks that panic and logic errors of the kinds storages and contexts hand out (cancellation, deadline, EOF, closed, not-exist, empty message). Non-trivial: length >= 2 with a failing step that is not the last. Enumerated chains are distinct by construction; generated chains are distinct by (kind, reference outcome) vector."
 
 func genC20Step(t *rapid.T) C20Step {
 	s := C20Step{Kind: rapid.IntRange(0, 7).Draw(t, "kind")}
 	str := rapid.OneOf(rapid.Just(""), rapid.StringMatching(`[a-z ]{0,12}`), rapid.StringMatching(`[a-zA-Z/:. ]{1,12}`), rapid.SampledFrom([]string{"/", "https://idp.example/saml/SSO", "https://idp.example/saml/SSO/", " ", "a//", "\x00", "é", "日本語", "üüüü", "𝄞𝄞", "naïve café", "\xff\xfe", "e\u0301"}))
 	s.PanicCB = rapid.IntRange(0, 5).Draw(t, "panic-in-callback") == 0
 	s.TypedNil = rapid.IntRange(0, 3).Draw(t, "typednil") == 0
+	s.NoName = rapid.IntRange(0, 3).Draw(t, "noname") == 0
 	s.ErrKind = rapid.SampledFrom([]string{"", "", "", "canceled", "wrapped-canceled", "deadline", "eof", "unexpected-eof", "closed", "not-exist", "empty-message"}).Draw(t, "errkind")
 	s.Reenter = (s.Kind == kLogic || s.Kind == kValueStep || s.Kind == kCondLogic) && rapid.IntRange(0, 3).Draw(t, "reenter") == 0
 	switch s.Kind {
@@ -578,7 +593,7 @@ func c20CheckChanging(steps, alt []C20Step) *ev.Violation {
 			}
 		}
 		tr.ev = tr.ev[:0]
-		got := c20Eval(c)
+		got := c20Eval(c, tr)
 		if got != (first >= 0) {
 			return ev.V("C20/verdict", "evaluation %d over changed inputs: CheckFailed=%v, reference says first failing step=%d; trace %s", round, got, first, tr)
 		}
